@@ -825,6 +825,18 @@ where
     ) {
         entry.set_dirty(false);
 
+        // Write ops of different threads can be queued in a different order than their
+        // updates of the hash map were made. Account the weight of the value the map
+        // holds now for this entry, not the weight recorded when this op was created.
+        let current = self
+            .cache
+            .get(&kh.key)
+            .filter(|e| TrioArc::ptr_eq(e.entry_info(), entry.entry_info()))
+            .map(|e| TrioArc::clone(&*e));
+        let new_weight = current
+            .as_ref()
+            .map_or(new_weight, |e| self.weigh(&kh.key, &e.value));
+
         if entry.is_admitted() {
             // The entry has been already admitted, so treat this as an update.
             // Replace the weight that is currently accounted for this entry.
@@ -840,11 +852,7 @@ where
         // Do not admit an entry that is no longer in the cache (hash map): it has
         // been invalidated or replaced since this op was queued, and nothing would
         // ever unlink its deque nodes or give back its weight.
-        let is_current = self
-            .cache
-            .get(&kh.key)
-            .map_or(false, |e| TrioArc::ptr_eq(e.entry_info(), entry.entry_info()));
-        if !is_current {
+        if current.is_none() {
             return;
         }
 
